@@ -189,6 +189,7 @@ def scalar_ops(n, K, a, obj, P):
         if P.get("sentinels", True):
             ops.append(_call(f"with_{n}", "with:MISSING", ["MISSING"], **f))
             ops.append(_call(f"with_{n}", "with:UNCHANGED", ["UNCHANGED"], **f))
+            ops.append(_call(f"update_{n}", "update:UNCHANGED", ["UNCHANGED"], **f))
         if K.get("nested"):
             ops.append(_call(f"with_{n}", "with:kw", x=3, **f))
             ops.append(_call(f"update_{n}", "update:kw", x=4, **f))
